@@ -6,7 +6,7 @@
          size_t remaining = end - cur;
          ssize_t written = pwrite(file->fid, cur, remaining, offset);
          if (written < 0) { CHECK_POSIX(errno); }          -> return 0   (whatever the value of errno: EIO, ENOSPC,
-                                                                             EAGAIN, EINTR, EBADF are all treated alike)
+                                                                             EAGAIN, EINTR, EBADF, EINVAL are all treated alike)
          retries += (written == 0);
          offset += written;  cur += written;
      }
@@ -33,8 +33,9 @@ Fixpoint write_at (f : file) (off : nat) (d : list byte) : file :=
 Definition pwrite_file (f : file) (off : nat) (d : list byte) : file :=
   match d with [] => f | _ => write_at f off d end.
 
-(* the error numbers a failing pwrite may report (the fault model of the check draws from exactly these) *)
-Inductive errno := EIO | ENOSPC | EAGAIN | EINTR | EBADF.
+(* the error numbers a failing pwrite -- and a failing ftruncate (FdTable.CFailTrunc) -- may report (the fault model of
+   the check draws from exactly these) *)
+Inductive errno := EIO | ENOSPC | EAGAIN | EINTR | EBADF | EINVAL.
 
 (* what the operating system answers to one pwrite call *)
 Inductive wresp :=
